@@ -7,6 +7,10 @@ use crate::refmqtt::Ver;
 use crate::simnet::ExploreCfg;
 use crate::world::{EpCfg, GateOutcome, Role};
 
+fn stream_len(tier: Tier, long: bool) -> u8 {
+    (if tier == Tier::Quick { 2 } else { 3 }) + long as u8
+}
+
 pub fn c03_configs(tier: Tier) -> Vec<InCfg> {
     let mut v = Vec::new();
     for (ver, role) in crate::c05::roles() {
@@ -49,13 +53,25 @@ pub fn c03_configs(tier: Tier) -> Vec<InCfg> {
                     bp: 0,
                 });
             }
+            // payload really streamed: with the default min_chunk_size a small payload is buffered by the
+            // decoder until it is complete, so a publish delivered in pieces never reached the handler as a
+            // stream (seeded change C03_r4). Here the first piece is announced at once and the handler reads
+            // the rest while other handlers complete / fail.
+            let mut stream_ep = ep.clone();
+            stream_ep.min_chunk_size = 1;
+            let stream_alphabet = vec![
+                T::Pub { qos: 1, id: 0, len: 1, topic: 0, alias: 0 },
+                T::Pub { qos: 2, id: 0, len: 1, topic: 0, alias: 0 },
+                T::PubSplit { qos: 1, id: 0, len: 6 },
+                T::PubSplit3 { qos: 2, id: 0, len: 8 },
+            ];
             v.push(InCfg {
                 ep,
                 connect_props: vec![],
                 alphabet,
                 prologue: vec![],
                 max_len: if tier == Tier::Quick { 3 } else { 4 },
-                outcomes,
+                outcomes: outcomes.clone(),
                 poutcomes: vec![GateOutcome::Ok],
                 cork: false,
                 judge: J_C03,
@@ -64,6 +80,25 @@ pub fn c03_configs(tier: Tier) -> Vec<InCfg> {
                 known: vec![],
                 bp: 0,
             });
+            // explored twice: one packet fewer with injections while runnable, full length at quiescence only
+            // (run_c03 picks the deviation bound by max_len)
+            for long in [false, true] {
+                v.push(InCfg {
+                    ep: stream_ep.clone(),
+                    connect_props: vec![],
+                    alphabet: stream_alphabet.clone(),
+                    prologue: vec![],
+                    max_len: stream_len(tier, long),
+                    outcomes: outcomes.clone(),
+                    poutcomes: vec![GateOutcome::Ok],
+                    cork: false,
+                    judge: J_C03,
+                    app_sends: vec![],
+                    skip_connect: false,
+                    known: vec![],
+                    bp: 0,
+                });
+            }
         }
     }
     v
@@ -119,10 +154,14 @@ pub fn run_c03(tier: Tier) -> i32 {
     let known: Vec<String> = ck.known.iter().filter(|k| k.status == "known").map(|k| format!("{}|{}", k.clause, k.witness)).collect();
     for (i, c) in c03_configs(tier).iter_mut().enumerate() {
         c.known = known.clone();
-        ck.explore::<In>("inbound", i, c, &ecfg);
+        if c.ep.min_chunk_size == 1 && c.max_len == stream_len(tier, true) {
+            ck.explore::<In>("inbound", i, c, &ExploreCfg { max_dev: 0, ..ecfg.clone() });
+        } else {
+            ck.explore::<In>("inbound", i, c, &ecfg);
+        }
     }
     ck.rule = format!(
-        "per role (v3/v5 server, v3/v5 client with protocol-service handler and with topic router): every sequence of up to {} inbound packets over {{PUBLISH q0/q1/q2, PUBLISH q1 delivered in two writes, PUBREL of the oldest unreleased QoS 2 id, PINGREQ, SUBSCRIBE}} interleaved in every order with handler completions whose outcome (ok / error / (v5) error mapped to a negative ack) the explorer chooses, {} injection(s) while tasks are runnable; monitor over handler log + positioned wire output. distinct_nontrivial = distinct final observations with >= 2 inbound packets",
+        "per role (v3/v5 server, v3/v5 client with protocol-service handler and with topic router): every sequence of up to {} inbound packets over {{PUBLISH q0/q1/q2, PUBLISH q1 delivered in two writes, PUBREL of the oldest unreleased QoS 2 id, PINGREQ, SUBSCRIBE}} interleaved in every order with handler completions whose outcome (ok / error / (v5) error mapped to a negative ack) the explorer chooses, {} injection(s) while tasks are runnable; monitor over handler log + positioned wire output; per role also with payload streaming on (min_chunk_size 1, alphabet {{PUBLISH q1/q2, PUBLISH q1 in two writes, PUBLISH q2 in three writes}}: the handler reads its payload while other handlers complete or fail; one packet fewer with injections, full length at quiescence only) - a payload read error on a connection that stays up is a violation. distinct_nontrivial = distinct final observations with >= 2 inbound packets",
         if tier == Tier::Quick { 3 } else { 4 },
         ecfg.max_dev
     );
